@@ -191,7 +191,8 @@ CLAIMS = {
               "reports the last entry's index and term (reopen_reports_last, reopen_reports_empty); append_ack / "
               "append_refused. The record codec round trip is proved (decFrame_frame). Tie: differential correspondence "
               "against the real LogInnerManager on real files incl. a hash of the whole file after each case, sizes that "
-              "align frames with the 1024-byte read chunks, 2/3-byte index steps, small index geometry through a guarded "
+              "align frames with the 1024-byte read chunks, records of 0.5-6 MB that cross the 1 MiB steps in which the file is "
+              "pre-allocated (the file-length bookkeeping), 2/3-byte index steps, small index geometry through a guarded "
               "hook; oracle = list of acknowledged entries. Several files: a model of RaftLogManager (catalogue of files + what each "
               "holds, RNacos/Model/LogManager.lean) in which *when a file is full* is a parameter; for every such oracle, "
               "every record size and any number of files, append / replicate and reads equal the list specification and the "
@@ -262,7 +263,9 @@ CLAIMS = {
               "snapshot-catalogue / last-applied saves the file decodes to the state in memory, so any number of restarts "
               "read the last saved term+vote and membership (history_consistent, restart_reads_last_hard_state, "
               "restart_reads_last_membership); the pre-fix new-file threshold is refuted by evaluation "
-              "(old_threshold_forgets_vote). Tie: differential correspondence against the real RaftIndexManager actor on "
+              "(old_threshold_forgets_vote). The same at the level raft sees it: term and vote saved through the real FileStore::save_hard_state are what "
+              "get_initial_state reports - with an empty log, after the log was cut back to nothing, across reopens (logstore "
+              "specification model + oracle). Tie: differential correspondence against the real RaftIndexManager actor on "
               "real files incl. file sizes; oracle = last saved value per field after every reopen."),
         note=("trusted: Lean kernel; hand model RNacos/Model/IndexFile.lean incl. quick-protobuf's encoding of RaftIndex, "
               "whose round trip is a hypothesis of the theorems (RoundTrips r, evaluated on examples, exercised by the "
@@ -345,7 +348,9 @@ CLAIMS = {
               "publish that follows notifies whatever it contains and answers every long-poll registered under the key "
               "(publish_after_tmp_notifies, publish_after_tmp_answers) - the spec oracle enforces this on the real actor. Kept "
               "visible: remove drops gRPC subscriptions (known finding F13, "
-              "replayed on the real actor every run). Tie: differential correspondence on the real ConfigActor with real "
+              "replayed on the real actor every run; attributed per observation - only the missing notification of a subscriber "
+              "whose subscription was in force at the removal and who has not subscribed again; one who subscribes again must be "
+              "told like anybody else). Tie: differential correspondence on the real ConfigActor with real "
               "oneshot receivers and the NotifyConfig hook log."),
         note=("trusted: Lean kernel; hand model RNacos/Model/Listener.lean with ghost md5s of pending long-polls; the "
               "wall-clock bound 'no later than its timeout' depends on the actix 500 ms timer (runtime, only sampled); "
@@ -355,7 +360,8 @@ CLAIMS = {
         category="proof",
         text=("Theorems (lean/RNacos/Props/C11.lean + Lemmas/{NamingSvc,Naming}.lean): an invariant preserved by every "
               "registry operation (register/update from HTTP, gRPC, cluster sync with any update tag, deregistration "
-              "with any client id, client removal, time checks at any times, console removal, empty-service clean-up) and "
+              "with any client id, client removal, time checks at any times, console removal, empty-service clean-up, the apply of a "
+              "committed Raft removal, a peer's digest of its gRPC connections) and "
               "hence true in every reachable state (inv_reachable): instance count = number of instances, healthy count "
               "= number of healthy ones (counters_exact), persistent set = non-ephemeral instances "
               "(persistent_set_exact), every service listed exactly once (index_exact), every instance recorded for a "
